@@ -622,4 +622,253 @@ theorem unexpected_error_close_code (c : Cfg) (w : W) (e : Exc) (hfd : c.fd = no
   | boom => unfold handleException; simp only [hcu, hfd]; exact hcl
   | _ => unfold handleException; simp only [hfd]; exact hcl
 
+/-! ### a close reason is only ever sent to a server that supports it (spec ≥ 2.3) -/
+
+/-- `b` is the (constant) `supReason`; when it is `false` no close event handed to `send` carries a reason -/
+def SaneB (b : Bool) (w : W) : Prop :=
+  w.supReason = b ∧ (b = false → ∀ x ∈ w.sent, ∀ c, x.1 ≠ Ev.close c true)
+
+theorem SaneB.congr {b : Bool} {w w' : W} (h : SaneB b w) (h1 : w'.sent = w.sent) (h2 : w'.supReason = w.supReason) :
+    SaneB b w' := ⟨h2 ▸ h.1, fun hb => h1 ▸ h.2 hb⟩
+
+theorem SaneB.snoc {b : Bool} {w w' : W} (h : SaneB b w) (e : Ev) (ok : Bool) (h1 : w'.sent = w.sent ++ [(e, ok)])
+    (h2 : w'.supReason = w.supReason) (he : b = false → ∀ c, e ≠ Ev.close c true) : SaneB b w' := by
+  refine ⟨h2 ▸ h.1, fun hb x hx c => ?_⟩
+  rw [h1, List.mem_append] at hx
+  rcases hx with hx | hx
+  · exact h.2 hb x hx c
+  · simp only [List.mem_singleton] at hx; subst hx; exact he hb c
+
+/-- what an operation may do to `sent` and `supReason`: nothing, or append one event of a given shape -/
+def Frame (w w' : W) (P : Ev → Prop) : Prop :=
+  w'.supReason = w.supReason ∧ (w'.sent = w.sent ∨ ∃ e ok, P e ∧ w'.sent = w.sent ++ [(e, ok)])
+
+theorem SaneB.frame {b : Bool} {w w' : W} {P : Ev → Prop} (h : SaneB b w) (hf : Frame w w' P)
+    (hP : ∀ e, P e → b = false → ∀ c, e ≠ Ev.close c true) : SaneB b w' := by
+  obtain ⟨f1, f2⟩ := hf
+  rcases f2 with f2 | ⟨e, ok, pe, f2⟩
+  · exact h.congr f2 f1
+  · exact h.snoc e ok f2 f1 (hP e pe)
+
+theorem send_frame (w : W) (d : Option Int) (e : Ev) : Frame w (w.send_ d e).1 (· = e) := by
+  unfold W.send_ Frame
+  cases d with
+  | some c => simp
+  | none =>
+    simp only
+    by_cases hc : (w.st == S.closed) = true
+    · simp [hc]
+    · simp only [hc, Bool.false_eq_true, if_false]
+      have hs := asgiSend_sent w e
+      rcases hsend : w.asgiSend e with ⟨w1, ok⟩
+      have hr : w1.supReason = w.supReason := by
+        have : (w.asgiSend e).1.supReason = w.supReason := rfl
+        rw [hsend] at this; exact this
+      rw [hsend] at hs
+      simp only at hs
+      cases ok with
+      | true => exact ⟨hr, Or.inr ⟨e, true, rfl, hs⟩⟩
+      | false =>
+        simp only [Bool.false_eq_true, if_false]
+        cases w1.fault <;> exact ⟨hr, Or.inr ⟨e, false, rfl, hs⟩⟩
+
+theorem stopPump_frame (w : W) : w.stopPump.supReason = w.supReason ∧ w.stopPump.sent = w.sent :=
+  ⟨stopPump_supReason w, stopPump_sent w⟩
+
+/-- every close event is built with `… && supReason` -/
+def IsGuardedClose (sup : Bool) (e : Ev) : Prop := ∃ code r, e = Ev.close code (r && sup)
+
+theorem closeGo_frame (w : W) (d : Option Int) (r : Bool) (code : Int) :
+    Frame w (W.close.go d r w code).1 (IsGuardedClose w.supReason) := by
+  unfold W.close.go Frame
+  split
+  · split <;> exact ⟨rfl, Or.inl rfl⟩
+  · generalize hev : Ev.close code ((r || w.reasonCodes.contains code) && w.supReason) = ev
+    have hs := asgiSend_sent w ev
+    rcases hsend : w.asgiSend ev with ⟨w1, ok⟩
+    have hr : w1.supReason = w.supReason := by
+      have : (w.asgiSend ev).1.supReason = w.supReason := rfl
+      rw [hsend] at this; exact this
+    rw [hsend] at hs
+    simp only at hs
+    have hg : IsGuardedClose w.supReason ev := ⟨code, _, hev.symm⟩
+    cases ok with
+    | true => exact ⟨hr, Or.inr ⟨ev, true, hg, hs⟩⟩
+    | false => exact ⟨hr, Or.inr ⟨ev, false, hg, hs⟩⟩
+
+theorem guarded_no_reason (b : Bool) (e : Ev) (h : IsGuardedClose b e) : b = false → ∀ c, e ≠ Ev.close c true := by
+  intro hb c he
+  obtain ⟨code, r, rfl⟩ := h
+  subst hb
+  simp at he
+
+theorem close_sane (b : Bool) (w : W) (d : Option Int) (a : CodeArg) (r : Bool) (h : SaneB b w) : SaneB b (w.close d a r).1 := by
+  have h0 : SaneB b w.stopPump := h.congr (stopPump_sent w) (stopPump_supReason w)
+  have hgo : ∀ code, SaneB b (W.close.go d r w.stopPump code).1 := by
+    intro code
+    refine h0.frame (closeGo_frame w.stopPump d r code) ?_
+    intro e pe
+    rw [h0.1] at pe
+    exact guarded_no_reason b e pe
+  unfold W.close
+  simp only
+  split
+  · exact h0
+  · split
+    · exact h0
+    · split
+      · exact h0
+      · exact hgo _
+  · exact hgo _
+
+theorem accept_sane (b : Bool) (w : W) (d : Option Int) (hd s bs : Bool) (h : SaneB b w) : SaneB b (w.accept d hd s bs).1 := by
+  unfold W.accept
+  split
+  · exact h
+  split
+  · exact h
+  split
+  · exact h
+  split
+  · exact h
+  have hf := send_frame w d (.accept hd s)
+  have hs : SaneB b (w.send_ d (.accept hd s)).1 :=
+    h.frame hf (fun e pe _ c => by rw [pe]; intro hh; cases hh)
+  rcases hr : w.send_ d (.accept hd s) with ⟨w1, eo⟩
+  rw [hr] at hs
+  cases eo with
+  | none => exact hs.congr rfl rfl
+  | some e => exact hs
+
+theorem sendMsg_sane (b : Bool) (w : W) (d : Option Int) (k : Kind) (h : SaneB b w) : SaneB b (w.sendMsg d k).1 := by
+  unfold W.sendMsg
+  split
+  · exact h
+  · exact h.frame (send_frame w d (.send k)) (fun e pe _ c => by rw [pe]; intro hh; cases hh)
+
+theorem receive_frame (w : W) : w.receive_.1.sent = w.sent ∧ w.receive_.1.supReason = w.supReason := by
+  unfold W.receive_
+  split <;> exact ⟨rfl, rfl⟩
+
+theorem recv_sane (b : Bool) (w : W) (k : RecvKind) (h : SaneB b w) : SaneB b (w.recv k).1 := by
+  have key : SaneB b w.receive_.1 := h.congr (receive_frame w).1 (receive_frame w).2
+  unfold W.recv
+  split
+  · exact h
+  · split
+    · exact h
+    · split
+      · rename_i w1 e heq
+        have : w1 = w.receive_.1 := by rw [heq]
+        rw [this]; exact key
+      · rename_i w1 ev heq
+        have : w1 = w.receive_.1 := by rw [heq]
+        subst this
+        split <;> exact key
+
+theorem op_sane (b : Bool) (w : W) (d : Option Int) (o : Op) (h : SaneB b w) : SaneB b (w.op d o).1 := by
+  cases o with
+  | accept hd s bs => exact accept_sane b w d hd s bs h
+  | close a r => exact close_sane b w d a r h
+  | send k => exact sendMsg_sane b w d k h
+  | recv k => exact recv_sane b w k h
+  | raiseHttp s => exact h
+  | raiseStatus s => exact h
+  | raiseExc => exact h
+  | raiseBoom => exact h
+
+theorem runScript_sane (b : Bool) (sc : List Step) : ∀ (w : W) (log : List (Option Exc)), SaneB b w →
+    SaneB b (runScript w sc log).1 := by
+  induction sc with
+  | nil => intro w log hi; exact hi
+  | cons x rest ih =>
+    intro w log hi
+    obtain ⟨o, c, d⟩ := x
+    unfold runScript
+    have h1 := op_sane b w d o hi
+    rcases hop : w.op d o with ⟨w1, eo⟩
+    rw [hop] at h1
+    cases eo with
+    | none => exact ih w1 _ h1
+    | some e =>
+      simp only
+      split
+      · exact ih w1 _ h1
+      · exact h1
+
+theorem cleanup_sane (b : Bool) (w : W) (fd : Option Int) (h : SaneB b w) : SaneB b (cleanup w fd).1 := by
+  unfold cleanup
+  have h1 := close_sane b w fd (.int w.errCloseCode) false h
+  rcases hc : w.close fd (.int w.errCloseCode) false with ⟨w1, eo⟩
+  rw [hc] at h1
+  cases eo with
+  | none => exact h1
+  | some e =>
+    cases e <;> first | exact h1 | exact close_sane b w1 _ _ _ h1
+
+theorem handleException_sane (b : Bool) (c : Cfg) (w : W) (e : Exc) (h : SaneB b w) : SaneB b (handleException c w e).1 := by
+  have hclose : ∀ (w : W) (s : Int), SaneB b w → ∀ hl : List (Option Exc),
+      SaneB b (let (w', e') := w.close c.fd (.int (s + 3000)) false; ((w', hl, e') : W × List (Option Exc) × Option Exc)).1 := by
+    intro w s hi hl; exact close_sane b w _ _ _ hi
+  have hclean : ∀ (w : W), SaneB b w →
+      SaneB b (let (w', e') := cleanup w c.fd; ((w', [], e') : W × List (Option Exc) × Option Exc)).1 := by
+    intro w hi; exact cleanup_sane b w _ hi
+  cases e with
+  | httpError s => exact hclose w s h []
+  | httpStatus s => exact hclose w s h []
+  | boom =>
+    unfold handleException
+    cases hcu : c.custom with
+    | none => exact hclean w h
+    | some hs =>
+      simp only
+      have h1 := runScript_sane b hs w [] h
+      rcases hr : runScript w hs [] with ⟨w1, hlog, eo⟩
+      rw [hr] at h1
+      cases eo with
+      | none => exact h1
+      | some e =>
+        cases e <;> first | exact h1 | exact hclose w1 _ h1 hlog
+  | _ => exact hclean w h
+
+theorem handle_sane (b : Bool) (c : Cfg) (w : W) (script : Option (List Step)) (h : SaneB b w) : SaneB b (handle c w script).w := by
+  unfold handle
+  cases script with
+  | none => exact handleException_sane b c w _ h
+  | some sc =>
+    simp only
+    have h1 := runScript_sane b sc w [] h
+    rcases hr : runScript w sc [] with ⟨w1, log, eo⟩
+    rw [hr] at h1
+    cases eo with
+    | some e => exact handleException_sane b c w1 e h1
+    | none =>
+      simp only
+      have h2 := close_sane b w1 c.fd .none false h1
+      rcases hc : w1.close c.fd .none false with ⟨w2, eo2⟩
+      rw [hc] at h2
+      cases eo2 with
+      | none => exact h2
+      | some e => exact handleException_sane b c w2 e h2
+
+/-- **C17 `reason_only_if_supported`**: when the server's spec version has no close reasons (`supReason = false`, spec < 2.3),
+    no close event of the session — issued by the responder, a middleware, an error handler or the framework — carries a
+    reason, for every script, inbox, fault and routing outcome -/
+theorem reason_only_if_supported (c : Cfg) (w : W) (mwReq mwRes : List Step) (r : Route)
+    (h0 : w.sent = []) (hs : w.supReason = false) :
+    ∀ x ∈ (handleMw c w mwReq mwRes r).w.sent, ∀ code, x.1 ≠ Ev.close code true := by
+  have hi : SaneB false w := ⟨hs, fun _ x hx => by rw [h0] at hx; cases hx⟩
+  have key : SaneB false (handleMw c w mwReq mwRes r).w := by
+    unfold handleMw
+    cases r with
+    | responder sc => exact handle_sane false c w _ hi
+    | unrouted => simp only; split <;> exact handle_sane false c w _ hi
+    | noResponder => simp only; split <;> exact handle_sane false c w _ hi
+  exact key.2 rfl
+
+/-- the rejection of a first event that is not `websocket.connect` attaches the reason iff the server supports it -/
+theorem rejectFirst_reason (w : W) (h0 : w.sent = []) (hf : w.failAt = none) :
+    (rejectFirst w).sent = [(.close 1011 w.supReason, true)] := by
+  simp [rejectFirst, W.asgiSend, h0, hf]
+
 end Ws
